@@ -274,6 +274,11 @@ def _deps_from_repo():
     return "\n".join(out)
 
 
+# harness bins needed only by the listed properties (every other bin, and sy / sy-remote, are needed by all)
+BIN_OWNERS = {"h_temp": ("C05", "C09")}
+CURRENT_PID = None
+
+
 def build_impl(timeout=3000):
     """Build the harness bins and the real sy / sy-remote from /repo's working tree, hooks on.  Never runs cargo inside /repo."""
     hdir = os.path.join(VERIF, "harness")
@@ -299,6 +304,16 @@ def build_impl(timeout=3000):
         try:
             rc, out = sh(["timeout", str(timeout), "cargo", "build", "--offline", "--bins", "-j", str(NCPU)], cwd=hdir, env=env,
                          timeout=timeout + 30)
+            if rc != 0 and rc != 124:
+                # a harness bin that only some properties need may stop compiling (e.g. the function it calls was
+                # renamed): build the rest, and fail only the properties that own the broken bin
+                rc2, out2 = sh(["timeout", str(timeout), "cargo", "build", "--offline", "--bins", "--keep-going", "-j", str(NCPU)],
+                               cwd=hdir, env=env, timeout=timeout + 30)
+                failed = set(re.findall(r'could not compile `[^`]+` \(bin "([^"]+)"\)', out2))
+                if failed and all(b in BIN_OWNERS and CURRENT_PID not in BIN_OWNERS[b] for b in failed):
+                    rc, out = 0, out2
+                else:
+                    out = out2
         except subprocess.TimeoutExpired:
             rc, out = 124, "cargo timed out"
         return rc == 0, out, time.time() - t0
